@@ -71,7 +71,8 @@ def _run_one(args) -> dict:
             # a seeded change kept under /verif/seeded/<id>/patch.diff (written by an independent agent)
             import subprocess
 
-            r = subprocess.run(["git", "apply", "--whitespace=nowarn", edits], cwd=tmp, capture_output=True, text=True)
+            rev = edits.startswith("-R:")
+            r = subprocess.run(["git", "apply", "--whitespace=nowarn"] + (["-R", edits[3:]] if rev else [edits]), cwd=tmp, capture_output=True, text=True)
             if r.returncode != 0:
                 return {"mutant": name, "status": "not-applicable", "new_keys": [], "detail": r.stderr[:200]}
             edits = []
@@ -127,6 +128,10 @@ def run_selftest(ctx: Context, mod) -> None:
             continue
         if ctx.prop in meta.get("caught_by", []):
             jobs.append((ctx.prop, str(ctx.repo.root), f"seeded:{d.name}", str(patch_p), baseline, ctx.tier))
+    # every repaired defect, un-repaired: the reverse of each `fix:` commit recorded for this property must be reported again
+    fixes_dir = Path(__file__).resolve().parent.parent / "fixes"
+    for d in sorted(fixes_dir.glob(f"{ctx.prop}-*.diff")) if fixes_dir.exists() else []:
+        jobs.append((ctx.prop, str(ctx.repo.root), f"revert-fix:{d.stem.split('-', 1)[1]}", "-R:" + str(d), baseline, ctx.tier))
     workers = min(16, max(1, len(jobs)))
     with ProcessPoolExecutor(max_workers=workers) as ex:
         results = list(ex.map(_run_one, jobs))
